@@ -30,6 +30,8 @@ pub struct DCase {
     pub pre_hold: bool,
     /// macro 1 is recorded first (two taps) so that it can be played while recording macro 0
     pub with_macro1: bool,
+    /// macro 1 contains a tap of its own play key
+    pub macro1_self_play: bool,
     /// the stop key comes 12 ms (instead of 45 ms) after the last typed event: with the
     /// time-sensitive mappings a tap-hold / tap-dance decision may still be pending
     pub quick_stop: bool,
@@ -62,7 +64,7 @@ fn cfg_text(c: &DCase) -> String {
 impl Case for DCase {
     fn to_json(&self) -> Value {
         json!({"config": cfg_text(self), "sensitive": self.sensitive, "recorded_mode": self.recorded_mode, "max_presses": self.max_presses,
-            "trunc": self.trunc, "stop_kind": self.stop_kind, "pre_hold": self.pre_hold, "with_macro1": self.with_macro1, "quick_stop": self.quick_stop,
+            "trunc": self.trunc, "stop_kind": self.stop_kind, "pre_hold": self.pre_hold, "with_macro1": self.with_macro1, "macro1_self_play": self.macro1_self_play, "quick_stop": self.quick_stop,
             "typed": self.typed.iter().map(|(g, k)| json!([g, k])).collect::<Vec<_>>()})
     }
     fn from_json(v: &Value) -> Option<Self> {
@@ -75,6 +77,7 @@ impl Case for DCase {
             pre_hold: v["pre_hold"].as_bool()?,
             with_macro1: v["with_macro1"].as_bool()?,
             quick_stop: v["quick_stop"].as_bool().unwrap_or(true),
+            macro1_self_play: v["macro1_self_play"].as_bool().unwrap_or(false),
             typed: v["typed"].as_array()?.iter().map(|p| Some((p[0].as_u64()? as u16, p[1].as_u64()? as u8))).collect::<Option<Vec<_>>>()?,
         })
     }
@@ -115,6 +118,9 @@ fn plan(c: &DCase) -> Plan19 {
     if c.with_macro1 {
         tap(&mut ins, &mut t, K_R1, 8, 12);
         tap(&mut ins, &mut t, "d", 8, 12);
+        if c.macro1_self_play {
+            tap(&mut ins, &mut t, K_P1, 8, 12);
+        }
         tap(&mut ins, &mut t, K_STOP, 8, 60);
     }
     let mut down = [false; 4];
@@ -387,6 +393,9 @@ fn judge_case(c: &DCase) -> Verdict {
     }
     if p.nested_play {
         v.classes.push("plays-other-macro-while-recording");
+        if c.macro1_self_play {
+            v.classes.push("nested-macro-contains-its-own-play-key");
+        }
     }
     v.classes.push(if c.recorded_mode { "delay:recorded" } else { "delay:constant" });
     v.classes.push(if c.sensitive { "time-sensitive-mapping" } else { "time-insensitive-mapping" });
@@ -459,7 +468,7 @@ impl TypedProp for C19 {
     fn info(&self) -> PropInfo {
         PropInfo {
             level: "exploration",
-            rule: "configs: record keys for two macro ids, record-stop, record-stop-truncate K (K 0-3), play keys for both ids, four typing keys with time-insensitive mappings (key, output chord, layer-while-held, multi) or time-sensitive ones (tap-hold, tap-dance, one-shot, 30 ms); dynamic-macro-max-presses 128 or 1-5; replay delay behaviour constant or recorded. Histories: optionally macro 1 recorded first, optionally a typing key held across the start; record 0; 0-15 typed events (toggling presses/releases of the typing keys with gaps 1-60 ms incl. 29/30/31, taps of the play key of the macro being recorded and of the other macro); stop by record-stop, -truncate, the same or the other record key, 12 or 45 ms after the last event; release what is held; play 0. Oracles: (i) the stored recording (read from its Debug rendering) equals the physical events between start and stop in order, without the stop key's press and the truncated tail, followed by releases of exactly the keys still down (any order), with each recorded delay equal to the time to the next event; (ii) differential: a second kanata is driven through the same history and then gets the stored events typed at the ticks at which the replay injects them (every 5 ticks, or after the recorded delays) instead of the play key: the OS output sequences must be equal (trailing releases as a set); (iii) the replay ends, nothing is left down, a recording that contains its own play key does not loop, and beyond the size limit recording has ended by itself with at most 2*max+2 items that are a prefix of what was typed. Non-trivial: the recording has >= 4 items, or a play key was typed while recording. Distinct: hash of the case.".into(),
+            rule: "configs: record keys for two macro ids, record-stop, record-stop-truncate K (K 0-3), play keys for both ids, four typing keys with time-insensitive mappings (key, output chord, layer-while-held, multi) or time-sensitive ones (tap-hold, tap-dance, one-shot, 30 ms); dynamic-macro-max-presses 128 or 1-5; replay delay behaviour constant or recorded. Histories: optionally macro 1 recorded first (optionally with a tap of its own play key inside), optionally a typing key held across the start; record 0; 0-15 typed events (toggling presses/releases of the typing keys with gaps 1-60 ms incl. 29/30/31, taps of the play key of the macro being recorded and of the other macro); stop by record-stop, -truncate, the same or the other record key, 12 or 45 ms after the last event; release what is held; play 0. Oracles: (i) the stored recording (read from its Debug rendering) equals the physical events between start and stop in order, without the stop key's press and the truncated tail, followed by releases of exactly the keys still down (any order), with each recorded delay equal to the time to the next event; (ii) differential: a second kanata is driven through the same history and then gets the stored events typed at the ticks at which the replay injects them (every 5 ticks, or after the recorded delays) instead of the play key: the OS output sequences must be equal (trailing releases as a set); (iii) the replay ends, nothing is left down, a recording that contains its own play key does not loop, and beyond the size limit recording has ended by itself with at most 2*max+2 items that are a prefix of what was typed. Non-trivial: the recording has >= 4 items, or a play key was typed while recording. Distinct: hash of the case.".into(),
             assumptions: vec!["with play keys inside the recording only (i) and (iii) are checked: typing a play key starts an asynchronous replay, replaying it inlines the other macro".into()],
             extra: BTreeMap::new(),
         }
@@ -472,7 +481,7 @@ impl TypedProp for C19 {
             },
             exhaustive: false,
             distinct_by_construction: false,
-            required_classes: vec!["delay:constant", "delay:recorded", "replay-compared-with-typing", "size-limit-hit", "plays-itself-while-recording", "plays-other-macro-while-recording", "stop:truncate", "stop:same-record-key", "stop:other-record-key", "key-held-across-start", "key-held-across-stop", "time-sensitive-mapping"],
+            required_classes: vec!["delay:constant", "delay:recorded", "replay-compared-with-typing", "size-limit-hit", "plays-itself-while-recording", "plays-other-macro-while-recording", "nested-macro-contains-its-own-play-key", "stop:truncate", "stop:same-record-key", "stop:other-record-key", "key-held-across-start", "key-held-across-stop", "time-sensitive-mapping"],
             hang_secs: 60,
         }
     }
@@ -489,9 +498,10 @@ impl TypedProp for C19 {
             prop::bool::weighted(0.3),
             prop::bool::weighted(0.3),
             prop::bool::weighted(0.25),
+            prop::bool::weighted(0.4),
             prop::collection::vec((0u8..8, prop_oneof![12 => 0u8..4, 1 => Just(4u8), 1 => Just(5u8)]), 0..16),
         )
-            .prop_map(|(sensitive, recorded_mode, max_presses, trunc, stop_kind, pre_hold, with_macro1, quick_stop, raw)| {
+            .prop_map(|(sensitive, recorded_mode, max_presses, trunc, stop_kind, pre_hold, with_macro1, quick_stop, macro1_self_play, raw)| {
                 let gaps: [u16; 8] = if sensitive { [1, 2, 5, 10, 29, 30, 31, 60] } else { [1, 2, 5, 6, 10, 31, 3, 8] };
                 // (with a small size limit the recording ends by itself and a play key typed after
                 // that would really play: no play keys then)
@@ -505,6 +515,7 @@ impl TypedProp for C19 {
                     pre_hold,
                     with_macro1,
                     quick_stop,
+                    macro1_self_play: macro1_self_play && with_macro1,
                     typed,
                 }
             })
